@@ -611,7 +611,8 @@ def harnesses(tier):
 
 EXPECT = ["C16.simulation_leaves_the_initial_state_of_the_model_untouched", "C16.levels.coarse_uses_previous_levels_driver_drift", "C16.levels.fine_uses_this_levels_driver_drift", "C16.euler_recursion_single", "C16.constant_coefficient_closed_form", "C16.diagonal_coefficient_closed_form", "C16.euler_recursion_coupled_fine",
           "C16.euler_recursion_coupled_coarse", "C16.df_is_one_at_zero", "C16.df_positive", "C16.df_non_increasing", "C16.df_at_tenor_is_product_of_period_accruals",
-          "C16.df_exponential_model"]
+          "C16.df_exponential_model",
+          "C16.integer_initial_state_is_simulated_like_its_float_value"]
 
 
 # the time profile of the rate coefficients is documented in their docstrings, not in the property: reported, not claimed
@@ -624,7 +625,7 @@ ERROR_REPLAYS = {"single.diag": (replay_diag, {"m": 2}), "single.": (replay_eule
 
 
 def main(tier):
-    bounds = {"histories_and_variants": 'time-dependent coefficient A0 + A2 t (1x1, 2 steps) for the single and the coupled scheme',
+    bounds = {"histories_and_variants": 'time-dependent coefficient A0 + A2 t (1x1, 2 steps) for the single and the coupled scheme; integer initial state (x0 = 100 / array([3])) on one concrete driver path',
               "euler": "<= 2 steps (quick) / 3 (thorough), state and driver dimension <= 2, constant / diag(x) / affine coefficient functions, arbitrary driver paths and drifts",
               "df": "<= 2 (quick) / 3 (thorough) rates, arbitrary increasing tenors, rates >= 0, 0 <= t1 < t2 <= last tenor",
               "outside": "the Libor drift term (dblquad of the copula derivative), LiborSDEFunction / ForwardMarketSDEFunction sigma(t) schedules, epsilon = h^BG passed to the driver"}
